@@ -91,7 +91,9 @@ Verdict(c) ==
     [] c.ep = "swap" ->
          IF c.flag # "all" THEN v
          ELSE IF v = "reject" THEN "reject"
-         ELSE IF c.pos # "only" THEN "reject"       \* all inputs must share the same condition
+         \* a second locked input (c.pair): all inputs must share the same condition
+         ELSE IF c.pos \in {"pairfirst", "pairlast"} /\ c.pair # "same" THEN "reject"
+         ELSE IF c.pos \notin {"only", "pairfirst", "pairlast"} THEN "reject"
          ELSE IF ~Locked(c) THEN "dontcare"          \* SIG_ALL after the locktime: the statement is silent
          ELSE IF c.osig # "valid" THEN "reject"      \* every output must be signed as well
          ELSE IF c.kind = "HTLC" /\ (c.nsigs <= 0 \/ c.npub = 0) THEN "dontcare"  \* no key could sign the outputs
@@ -124,7 +126,7 @@ Flags == {"none", "inputs", "all"}
 
 P2PKVerifyCases ==
   {[kind |-> "P2PK", nsigs |-> n, npub |-> p, lt |-> lt, nref |-> r, flag |-> f, wit |-> w,
-    hash |-> "ok", pre |-> "absent", ep |-> "verify", pos |-> "only", osig |-> "none"] :
+    hash |-> "ok", pre |-> "absent", ep |-> "verify", pos |-> "only", osig |-> "none", pair |-> "none"] :
      n \in NSigs, p \in 0..3, lt \in LockTimes, r \in 0..2, f \in Flags, w \in Wits}
 
 HTLCWits ==
@@ -134,7 +136,7 @@ HTLCWits ==
                    \cup {W("list", <<"P1">>, TRUE)}
 HTLCVerifyCases ==
   {[kind |-> "HTLC", nsigs |-> n, npub |-> p, lt |-> lt, nref |-> r, flag |-> "none", wit |-> w,
-    hash |-> hp[1], pre |-> hp[2], ep |-> "verify", pos |-> "only", osig |-> "none"] :
+    hash |-> hp[1], pre |-> hp[2], ep |-> "verify", pos |-> "only", osig |-> "none", pair |-> "none"] :
      n \in (IF Thorough THEN {-1, 0, 1, 2, 3} ELSE {-1, 1, 2}), p \in 0..3, lt \in LockTimes, r \in 0..2, w \in HTLCWits,
      hp \in (IF Thorough THEN {"ok", "short", "nothex", "upper"} \X {"right", "wrong", "nothex", "empty", "absent"}
              ELSE ({"ok"} \X {"right", "wrong", "nothex", "empty", "absent"}) \cup ({"short", "nothex", "upper"} \X {"right"}))}
@@ -144,7 +146,7 @@ MintWits == SpecialWits \cup {W("list", s, FALSE) : s \in {<<"L">>, <<"P1">>, <<
                                                            <<"P1", "P1b">>, <<"L", "P1", "P1b">>, <<"R1">>}}
 MintCases ==
   {[kind |-> k, nsigs |-> n, npub |-> p, lt |-> lt, nref |-> r, flag |-> f, wit |-> w,
-    hash |-> "ok", pre |-> (IF k = "HTLC" THEN pr ELSE "absent"), ep |-> ep, pos |-> pos, osig |-> os] :
+    hash |-> "ok", pre |-> (IF k = "HTLC" THEN pr ELSE "absent"), ep |-> ep, pos |-> pos, osig |-> os, pair |-> "none"] :
      k \in {"P2PK", "HTLC"}, n \in {-1, 1, 2, 3}, p \in {0, 2}, lt \in LockTimes, r \in {0, 1}, f \in Flags, w \in MintWits,
      pr \in {"right", "wrong"}, ep \in {"swap", "melt"}, pos \in {"only", "first", "middle", "last"},
      os \in {"none", "valid", "garbage", "onemissing"}}
@@ -162,8 +164,17 @@ SelectedMintCases ==
      /\ (c.kind = "HTLC" /\ c.pre = "wrong" => c.wit.form = "none")
      /\ (Thorough \/ (c.pos \in {"only", "last", "first"} /\ c.nsigs \in {-1, 1, 2} /\ (c.nref = 0 \/ c.lt = "past")))}
 
+\* two locked SIG_ALL inputs in one swap: c is the case's own input, its partner differs as c.pair says
+\*   same: identical condition;  nsigs: another n_sigs (1 <-> 2), same keys;  keys: one co-signer fewer;
+\*   noflag: same keys, no SIG_ALL flag.  Both inputs carry a valid witness for their own condition.
+PairCases ==
+  {[kind |-> "P2PK", nsigs |-> n, npub |-> 2, lt |-> "none", nref |-> 0, flag |-> "all",
+    wit |-> (IF n = 2 THEN W("list", <<"L", "P1">>, FALSE) ELSE W("list", <<"L">>, FALSE)),
+    hash |-> "ok", pre |-> "absent", ep |-> "swap", pos |-> pos, osig |-> os, pair |-> pr] :
+     n \in {1, 2}, pos \in {"pairfirst", "pairlast"}, os \in {"none", "valid"}, pr \in {"same", "nsigs", "keys", "noflag"}}
+
 Cases(which) ==
-  CASE which = "p2pk" -> P2PKVerifyCases \cup {c \in SelectedMintCases : c.kind = "P2PK"}
+  CASE which = "p2pk" -> P2PKVerifyCases \cup {c \in SelectedMintCases : c.kind = "P2PK"} \cup PairCases
     [] which = "htlc" -> HTLCVerifyCases \cup {c \in SelectedMintCases : c.kind = "HTLC"}
 
 \* ---------------------------------------------------------------- Dump mode
